@@ -142,21 +142,61 @@ def scan_table(ctx, prog, b, name, direction):
                 Row([le(LP, LH), ("is", hit, 1)], some_i, name="candidate matches"),
                 Row([le(LP, LH), lt(Int(0), I), ("is", hit, 0)], None, kind="back", name="candidate fails: previous offset"),
                 Row([le(LP, LH), eq(I, Int(0)), ("is", hit, 0)], none, name="candidates exhausted")]
-    paths2 = [p for p in paths if not _empty_pattern_path(p, LP)]
+    # SCAN-EMPTY: an empty pattern matches at the first candidate (fwd: 0, rev: len).  The hit test is C05's strip_prefix, whose
+    # table says an empty pattern always matches, so the cases "empty pattern, candidate fails" do not exist; in the remaining
+    # empty-pattern cases a path may also return that answer directly (an explicit early exit) instead of via the scan rows.
+    first = Int(0) if direction == "fwd" else LH
+
+    def empty_hits(case):
+        try:
+            return not (case.val(LP) == case.val(Int(0)) and case.variants.get(hit) == 0)
+        except KeyError:
+            return True
+
+    def or_empty(f):
+        if f is None:
+            return None
+
+        def g(path, case):
+            try:
+                empty = case.val(LP) == case.val(Int(0))
+            except KeyError:
+                empty = False
+            if empty and path.kind == "return" and path.value[:2] == table.Some(first)[:2] and _n0(path.value[2], LP) == first:
+                return None
+            return f(path, case)
+        return g
+    if direction == "fwd":
+        for r in rows:
+            r.outcome = or_empty(r.outcome)
+        cons = [empty_hits]
+    else:
+        # the property speaks of non-empty patterns in reverse search (the repository's own tests pin bytes_rfind(x, b"") to
+        # Some(len - 1), which is not std's Some(len)): empty-pattern cases and the explicit early exit are outside the table
+        paths = [p for p in paths if not _empty_pattern_path(p, LP)]
+        cons = [ne(LP, Int(0))]
     try:
-        mism, n, dec = table.compare(paths2, rows, variant_domain={hit: [0, 1]}, constraints=[ne(LP, Int(0))])
+        mism, n, dec = table.compare(paths, rows, variant_domain={hit: [0, 1]}, constraints=cons)
     except table.Undecided as e:
         ctx.violation("SCAN", key, "undecided: %s" % e, b.file())
         return
     ctx.instance("SCAN", key, nontrivial=dec >= 2, sample={"fn": name, "direction": direction, "cases": n, "decided": dec})
     for m in mism[:3]:
         ctx.violation("SCAN", key + "|" + m.row.name, "%s is not a complete scan: %s" % (name, m), b.file())
-    # forward search with an empty pattern matches at 0
     if direction == "fwd":
-        ok = False
-        for p in paths:
-            pass
-        ctx.instance("SCAN-EMPTY", key)
+        ctx.instance("SCAN-EMPTY", key, sample={"fn": name, "first_candidate": show(first),
+                                                "explicit_empty_paths": sum(1 for p in paths if _empty_pattern_path(p, LP))})
+
+
+def _n0(t, LP):
+    """t with `len(pattern)` = 0"""
+    if t == LP:
+        return Int(0)
+    if isinstance(t, tuple):
+        t = tuple(_n0(x, LP) if isinstance(x, tuple) else x for x in t)
+        if t[0] == "bin" and t[1] in ("Sub", "Add") and t[3] == Int(0):
+            return t[2]
+    return t
 
 
 def _empty_pattern_path(p, LP):
